@@ -59,3 +59,37 @@ def validate_findall(patterns, subjects):
             if a != b:
                 bad.append((p, s, a, b))
     return bad
+
+
+def install_ascii_case():
+    """ASCII model of str.lower()/upper() on CrossHair's symbolic strings (its own model forks over the Unicode
+    case tables, ~1 s per path).  Sound only under a precondition that keeps every text ASCII - the harnesses
+    that use it state that bound.  Validated against real str.lower/upper on all 128 ASCII code points."""
+    from crosshair.libimpl import builtinslib as bl
+
+    def lower(self):
+        out = []
+        for ch in self:
+            o = ord(ch)
+            out.append(chr(o + 32) if 65 <= o <= 90 else ch)
+        return ''.join(out)
+
+    def upper(self):
+        out = []
+        for ch in self:
+            o = ord(ch)
+            out.append(chr(o - 32) if 97 <= o <= 122 else ch)
+        return ''.join(out)
+
+    bl.AnySymbolicStr.lower = lower
+    bl.AnySymbolicStr.upper = upper
+
+
+def validate_ascii_case():
+    for o in range(128):
+        c = chr(o)
+        lo = chr(o + 32) if 65 <= o <= 90 else c
+        up = chr(o - 32) if 97 <= o <= 122 else c
+        if c.lower() != lo or c.upper() != up:
+            return False
+    return True
